@@ -1363,11 +1363,15 @@ func registerStubs(w *World) {
 	// ---- reflect ----
 	S["reflect.TypeOf"] = func(in *Interp, fn *ssa.Function, a []Value) Value {
 		rt := types.NewPointer(in.W.LookupType("reflect", "rtype"))
-		switch x := a[0].(type) {
-		case *LazyV:
-			if in.lazyIsNil(x) {
+		arg := a[0]
+		if lz, ok := arg.(*LazyV); ok {
+			if in.lazyIsNil(lz) {
 				return NilIface
 			}
+			arg = in.force(lz) // decide the dynamic type: type identity is observable
+		}
+		switch x := arg.(type) {
+		case *LazyV:
 			if x.Res != nil {
 				return IfaceV{T: rt, V: &NativeV{Kind: "rtype", V: x.Res.T}}
 			}
